@@ -416,7 +416,7 @@ def reported_rule(ctx, report, f):
                              "the decoded record's seq is not the seq item that was read: %s" % short(seq, 200), fn=f.path, sp=s.sp, config=cfg)
                 # content
                 cl = trace_local(an, ops["content"])
-                report.check("REPORTED", "decode/content", cl == m.content_local, "the record's content is the map filled by the pair loop",
+                report.check("REPORTED", "decode/content", cl is not None and m.holds_content(cl, b.idx, i), "the record's content is the map filled by the pair loop",
                              "the decoded record's content is not the map filled from the input", fn=f.path, sp=s.sp, config=cfg)
                 # every pair read is stored under its own key
                 bb, t = m.insert_ev
